@@ -168,10 +168,10 @@ theorem empty_mode_nullfail (g : Graph) (hwf : g.WF) (steps : Steps) :
   simp
 
 /-- the three modes on the example graph: the missing package `zz` and the wildcard `z*` -/
-example : evalForward exGraph .nullglob (.cons .child ['z', 'z'] .none .nil) = .error .notFound := by decide
-example : evalForward exGraph .nullset (.cons .child ['z', 'z'] .none .nil) = .ok ([], [0]) := by decide
-example : evalForward exGraph .nullfail (.cons .descendant ['z', 'z'] .none .nil) = .error .noMatch := by decide
-example : evalForward exGraph .nullglob (.cons .descendant ['z', 'z'] .none .nil) = .ok ([], [0]) := by decide
+example : evalForward exGraph .nullglob (.cons .child ['z', 'z'] .none .nil) = .error .notFound := by rfl
+example : evalForward exGraph .nullset (.cons .child ['z', 'z'] .none .nil) = .ok ([], []) := by rfl
+example : evalForward exGraph .nullfail (.cons .descendant ['z', 'z'] .none .nil) = .error .noMatch := by rfl
+example : evalForward exGraph .nullglob (.cons .descendant ['z', 'z'] .none .nil) = .ok ([], []) := by rfl
 
 /-! ### 5. reported paths -/
 
